@@ -25,12 +25,17 @@ from collections import Counter
 
 from . import common as C
 
-PROP = "C05"
+PROPERTY = "C05"
+# common.check_cases_in_coq names its shard files coq/cases/<PROP>_s<k>.v and deletes <PROP>_s* first.
+# Two C05 checks running at the same time (e.g. several bin/try-seeded ... C05 in parallel) therefore
+# compiled each other's shards: on the unchanged tree that showed up as "disagreements 5" / "Unable to
+# unify true with false" / a half-written _loc.v.  The prefix is made unique per check process.
+PROP = f"{PROPERTY}_p{os.getpid()}"
 MODEL = "Continuation"
 CHECK_FN = "check_cases"
 SKIPPED_FN = "cases_unsupported"
 SHARD = 60
-CASE_TIMEOUT = 60
+CASE_TIMEOUT = 120      # a case takes ~50 ms; on a timeout run_impl retries once before the driver sees a hang
 RULE = ("cases: (recipe) 1-3 just_once templates (by nickname and by table name, hostile names) whose fields hold "
         "typed hostile scalars / references, run with a continuation file, file re-loaded and re-saved 1-4 times, "
         "run continued 1-3 times (optionally from a file whose `today` was moved, optionally with one more template "
@@ -47,7 +52,7 @@ TRUSTED = ["harness/c05.py: abstraction of the implementation's Globals object (
            "data_generator.save_continuation_yaml wrapped from the harness side to see the Globals object being saved"]
 ASSUMPTIONS = ["PyYAML: yaml.safe_load(yaml.dump(t, Dumper=SnowfakeryDumper)) gives back the key-sorted tree t for "
                "trees of str/bool/int/float/null/date/datetime/Decimal scalars (Section hypothesis yaml_roundtrip; sampled "
-               "on every case: oracle class yaml-law)",
+               "on every case: oracle class file-differs-from-state)",
                "dict keys of the persistent state are Python str; Python str order = UTF-8 byte order"]
 EXHAUSTIVE = {"quick": False, "thorough": False}
 
@@ -579,6 +584,7 @@ def one_run(recipe_text, values, peeks, continuation, target=None):
             seen["dump_msg"] = str(e)[:160]
             raise
 
+    spy._sfv_orig = orig
     if orig is not None:
         DG.save_continuation_yaml = spy
     res = {"rows": None, "log": None, "run_err": None, "dump_err": None, "text": None, "saved": None, "state": None}
@@ -818,7 +824,7 @@ def run_malformed_case(case):
     return obs
 
 
-def run_impl(case):
+def _run_impl_once(case):
     k = case["kind"]
     if k == "recipe":
         return run_recipe_case(case)
@@ -827,6 +833,55 @@ def run_impl(case):
     if k == "malformed":
         return run_malformed_case(case)
     raise ValueError(k)
+
+
+def run_impl(case):
+    """A time limit hit because the machine is overloaded must not become a verdict: the case is
+    run a second time with a fresh limit; only a second timeout is reported (by the driver) as a hang."""
+    import signal
+    try:
+        return _run_impl_once(case)
+    except BaseException as e:
+        if type(e).__name__ != "_CaseTimeout":
+            raise
+    _restore_patches()
+    signal.alarm(CASE_TIMEOUT)
+    obs = _run_impl_once(case)
+    if isinstance(obs, dict):
+        obs["retried_after_timeout"] = True
+    return obs
+
+
+def _restore_patches():
+    """a timeout can interrupt one_run between patching and restoring save_continuation_yaml"""
+    try:
+        from snowfakery import data_generator as DG
+        f = getattr(DG, "save_continuation_yaml", None)
+        while getattr(f, "_sfv_orig", None) is not None:
+            f = f._sfv_orig
+        if f is not None:
+            DG.save_continuation_yaml = f
+    except Exception:
+        pass
+
+
+def _janitor():
+    """shard files left behind by failed C05 checks whose process is gone"""
+    if not C.CASES_DIR.exists():
+        return
+    for f in C.CASES_DIR.glob(f"{PROPERTY}_p*_s*"):
+        m = re.match(rf"{PROPERTY}_p(\d+)_s", f.name)
+        if not m or int(m.group(1)) == os.getpid():
+            continue
+        try:
+            os.kill(int(m.group(1)), 0)
+        except ProcessLookupError:
+            try:
+                f.unlink()
+            except OSError:
+                pass
+        except OSError:
+            pass
 
 
 # =============================================================================== model side
@@ -1038,7 +1093,8 @@ def oracle_common(obs, base, what):
         return f"file-unreadable: the written file cannot be parsed: {t1}"
     # PyYAML's law, sampled: the parsed file is the key-sorted state tree
     if base.get("state") is not None and base["state"] != t1:
-        return f"yaml-law: yaml.safe_load(yaml.dump(state)) differs from the state: {_tree_diff(base['state'], t1)}"
+        return (f"file-differs-from-state: the tree parsed from the written file is not the (key-sorted) state that "
+                f"was saved - save_continuation_yaml or PyYAML's round trip altered it: {_tree_diff(base['state'], t1)}")
     lo = obs.get("load1")
     if lo is None:
         return None
@@ -1471,6 +1527,7 @@ def shared_table_cases():
 
 
 def generate(rng, tier):
+    _janitor()
     quick = tier == "quick"
     cases = []
     cases.extend(boundary_cases(rng))
@@ -1508,6 +1565,7 @@ def nontrivial(case, obs):
 
 
 def stats(cases, obss):
+    C.LAST_SKIPPED[PROPERTY] = C.LAST_SKIPPED.get(PROP, 0)     # the driver reads it under the property id
     kinds = Counter(c["kind"] for c in cases)
     vt = Counter()
     feats = Counter()
@@ -1555,7 +1613,8 @@ def stats(cases, obss):
             lo = o.get("load", {})
             loads[c.get("what", "?").split(":")[0] + "->" + (lo.get("err") or "ok")] += 1
     return {"kinds": dict(kinds), "value_types": dict(vt), "features": dict(feats), "outcomes": dict(outcomes),
-            "malformed_outcomes": dict(loads)}
+            "malformed_outcomes": dict(loads),
+            "retried_after_timeout": sum(1 for o in obss if isinstance(o, dict) and o.get("retried_after_timeout"))}
 
 
 def shrink(case):
